@@ -345,3 +345,48 @@ func verifHarnessTypeExpr(depth int) {
 	verifAssert(got == want, "type-spelling")
 	verifReach("end")
 }
+
+// verifQualifiers collects the package qualifiers an AST type expression uses.
+func verifQualifiers(e ast.Expr, out map[string]bool) {
+	ast.Inspect(e, func(n ast.Node) bool {
+		if s, ok := n.(*ast.SelectorExpr); ok {
+			if id, ok := s.X.(*ast.Ident); ok {
+				out[id.Name] = true
+			}
+		}
+		return true
+	})
+}
+
+// verifHarnessTypeImports: every package qualifier that the spelled type uses is the
+// name of an import recorded in the parameter's ReferencedImports (the generator marks
+// exactly those as used, so a qualifier outside the set is an undefined identifier in
+// the output), and every recorded import is one the spelling uses (otherwise
+// "imported and not used").
+func verifHarnessTypeImports(depth int) {
+	user := types.NewPackage("example.com/u", "u")
+	ext := types.NewPackage("example.com/ext/remote", "remote")
+	t := verifAnyType(depth, user, ext)
+	imports := map[string]*Import{}
+	vp := NewVarPool()
+	p := NewInjectorParamWithImports([]types.Type{t}, true, "example.com/u", imports, vp)
+	expr, err := createASTTypeExpr("example.com/u", t, vp, imports)
+	if err != nil {
+		verifAssert(false, "type-refused")
+		return
+	}
+	verifLog("type", verifRenderType(t, "example.com/u"))
+	quals := map[string]bool{}
+	verifQualifiers(expr, quals)
+	names := map[string]bool{}
+	for _, imp := range p.ReferencedImports {
+		names[imp.Name] = true
+	}
+	for q := range quals {
+		verifAssert(names[q], "qualifier-not-in-referenced-imports")
+	}
+	for n := range names {
+		verifAssert(quals[n], "referenced-import-not-used-by-spelling")
+	}
+	verifReach("end")
+}
